@@ -3,8 +3,8 @@ import os, itertools
 import vlib
 from props import pyph
 
-MODULE = 'GudhiVerif.Properties.C12'
-THEOREMS = ['DomProto.dom_spec', 'C12.minTime_mem', 'C12.pushOnce_spec', 'C12.loop_time_mono', 'C12.commonNeighbors_inv', 'C12.processEdge_emits', 'C12.sweep_sublist', 'C12.sweep_time_ge', 'C12.processEdges_sound']
+MODULE = 'GudhiVerif.Properties.C12b'
+THEOREMS = ['DomProto.dom_spec', 'C12.minTime_mem', 'C12.pushOnce_spec', 'C12.loop_time_mono', 'C12.commonNeighbors_inv', 'C12.processEdge_emits', 'C12.sweep_sublist', 'C12.sweep_time_ge', 'C12.processEdges_sound', 'C12b.adjLe_mono', 'C12b.dominatedBy_mono', 'C12b.val_symm', 'C12b.pushOnce_keeps_dominator', 'C12b.dead_is_dominated']
 PARTIAL = ['C12_ph_partial: that removing / delaying dominated edges preserves the persistence diagram of the flag filtration in every dimension is the theorem of Glisse and Pritam; it is not proved in Lean. '
            'On every run it is evaluated exactly on every explored graph: the flag filtrations of the input and of the returned edges are expanded to the clique number and their diagrams over Z2 and Z3 are compared',
            'C12_sort_partial: the public function sorts with an unstable sort; the model of process_edges is compared on explicit edge orders (every order by non-increasing value), the public function through the oracle only']
@@ -94,8 +94,14 @@ def gen_graph(rng, maxn=7):
     return edges
 
 
-def gen_case(rng, maxn=7):
-    edges = gen_graph(rng, maxn)
+def gen_case(rng, maxn=7, dense_graph=False):
+    if dense_graph:
+        # (nearly) complete graph with many weight levels: many edges get delayed, later edges see the delayed values
+        n = rng.choice([7, 8, 8, 9]); labels = list(range(n)); rng.shuffle(labels)
+        edges = [((labels[a], labels[b]) if rng.random() < 0.5 else (labels[b], labels[a])) + (rng.randrange(1, 31),)
+                 for a, b in itertools.combinations(range(n), 2) if rng.random() < 0.95]
+    else:
+        edges = gen_graph(rng, maxn)
     # one edge per line (so that a failing graph shrinks edge by edge), in a random order compatible with non-increasing
     # values = a possible outcome of the unstable sort of the public function
     es = list(edges); rng.shuffle(es)
@@ -120,7 +126,7 @@ def exhaustive(nv, weights):
 
 def run(ctx):
     thorough = ctx.tier == 'thorough'
-    ctx.rule = ('random weighted graphs on 3-9 vertices, edge density 0.4 / 0.7 / 1.0, weights with many ties, permuted vertex numbering and edge orientation; each graph processed in 1-3 random orders '
+    ctx.rule = ('random weighted graphs on 3-9 vertices, edge density 0.4 - 1.0, weights with many ties, plus nearly complete graphs on 7-9 vertices with 30 weight levels (many delayed edges), permuted vertex numbering and edge orientation; each graph processed in 1-3 random orders '
                 'compatible with non-increasing values (model of process_edges compared edge for edge) and once through the public function; builds with and without GUDHI_COLLAPSE_USE_DENSE_ARRAY and with TBB sorting; '
                 'exhaustive graphs on 4 vertices with weights {1,2}; oracle: edges subset of the input, values not lowered, flag persistence diagrams over Z2 and Z3 in every dimension equal; non-trivial = the collapse removes or delays at least one edge')
     vlib.lean_stage(ctx, MODULE, THEOREMS)
@@ -139,6 +145,7 @@ def run(ctx):
     for name in ('hC12', 'hC12_dense', 'hC12_tbb') + (('hC12_san',) if thorough else ()):
         if not exes.get(name): ctx.notes.append(name + ' not built: ' + errs.get(name, '')[-200:]); continue
         cases = [gen_case(ctx.rng, 9 if i % 3 == 0 else 7) for i in range(2 * n if name != 'hC12_san' else 200)]
+        cases += [gen_case(ctx.rng, dense_graph=True) for _ in range(n // 3 if name != 'hC12_san' else 20)]
         vlib.correspondence(ctx, {'hC12': 'sparse_map', 'hC12_dense': 'dense_array', 'hC12_tbb': 'tbb_sort', 'hC12_san': 'asan_ubsan'}[name], [exes[name]], drv, cases, keep_prefix=0, canon=canon, oracle=oracle, valid=valid)
     vlib.correspondence(ctx, 'exhaustive_4_vertices', [exes['hC12']], drv, exhaustive(4, (1, 2)), keep_prefix=0, canon=canon, oracle=oracle, valid=valid)
     if thorough:
